@@ -127,7 +127,7 @@ impl Prop for C11 {
         "C11"
     }
     fn rule(&self) -> String {
-        "case = (piece type: Poly0..Poly7 or Log<Poly0..Poly8> (type is part of the case), 1..=L pieces (L=8 quick, 24 thorough) with ends from positive lattices (duplicates, ends one ulp apart; shifted by 0/-1/-2.5 for polynomial pieces so that ends straddle 0), piece j's coefficients = pool of moderate numbers rotated by 3j; knot k0 with x strictly inside the first piece / exactly at its end / beyond it (>0 for logs), y any; evaluation points from the list's alphabet: at every end, one ulp either side, midpoints, beyond both extremes). Oracle: per-piece exact integrals (polynomials: exact dyadic powers, 384-bit division; logs: t·Q(ln t) closed form), cumulative magnitude W_j = |k0.y| + Σ_{l<=j}(M_l(left_l)+M_l(right_l)), tolerance 160(j+1)u·W_j (+1e-12·W_j for quartic pieces). Clauses: (1) same number of pieces, every end bit-identical; (2) first piece passes through k0; (3) adjacent pieces agree at every interior breakpoint; (4) every piece is an antiderivative of its integrand (F_i(b)-F_i(a) vs exact); (5) when k0.x < e_0: Piecewise::evaluate(t) = k0.y + ∫_{k0.x}^t f summed exactly over the pieces crossed; (6) indefinite(): first piece bit-identical to segments[0].indefinite(), clauses 1,3,4 again, empty input gives empty output; (7) integral_iter (by value) and integral_iter_ref yield bit-identical pieces equal to Piecewise::integral. Non-trivial: >=3 pieces and (k0.x strictly inside the first piece or an evaluation >= 2 breakpoints away from k0.x).".into()
+        "case = (piece type: Poly0..Poly7 or Log<Poly0..Poly8> (type is part of the case), 1..=L pieces (L=8 quick, 24 thorough) with ends from positive lattices (duplicates, ends one ulp apart; shifted by 0/-1/-2.5 for polynomial pieces so that ends straddle 0), piece j's coefficients = pool of moderate numbers rotated by 3j, pool and k0.y times a common power of two (1 in 70% of cases, else 2^k with k uniform in ±250); knot k0 with x strictly inside the first piece / exactly at its end / beyond it (>0 for logs), y any; evaluation points from the list's alphabet: at every end, one ulp either side, midpoints, beyond both extremes). Oracle: per-piece exact integrals (polynomials: exact dyadic powers, 384-bit division; logs: t·Q(ln t) closed form), cumulative magnitude W_j = |k0.y| + Σ_{l<=j}(M_l(left_l)+M_l(right_l)), tolerance 160(j+1)u·W_j (+1e-12·W_j for quartic pieces). Clauses: (1) same number of pieces, every end bit-identical; (2) first piece passes through k0; (3) adjacent pieces agree at every interior breakpoint; (4) every piece is an antiderivative of its integrand (F_i(b)-F_i(a) vs exact); (5) when k0.x < e_0: Piecewise::evaluate(t) = k0.y + ∫_{k0.x}^t f summed exactly over the pieces crossed; (6) indefinite(): first piece bit-identical to segments[0].indefinite(), clauses 1,3,4 again, empty input gives empty output; (7) integral_iter (by value) and integral_iter_ref yield bit-identical pieces equal to Piecewise::integral. Non-trivial: >=3 pieces and (k0.x strictly inside the first piece or an evaluation >= 2 breakpoints away from k0.x).".into()
     }
     fn cases(&self, tier: Tier) -> u64 {
         tier.pick(80_000, 2_000_000)
@@ -140,8 +140,11 @@ impl Prop for C11 {
             vec(gen::moderate(10), 13),
             gen::moderate(20),
             vec(any::<u16>(), 4..10),
+            gen::common_scale(250),
         )
-            .prop_map(|((fam, deg0, shift, kclass, kfrac), ends0, pool, ky, qs)| {
+            .prop_map(|((fam, deg0, shift, kclass, kfrac), ends0, pool, ky, qs, sc)| {
+                let pool: Vec<f64> = pool.into_iter().map(|v| v * sc).collect();
+                let ky = ky * sc;
                 let deg = if fam == 0 { deg0 % 8 } else { deg0 };
                 let off = if fam == 0 { [0.0, -1.0, -2.5][shift as usize] } else { 0.0 };
                 let ends: Vec<f64> = ends0.iter().map(|e| e + off).collect();
